@@ -118,9 +118,11 @@ class _Env:
                 return permute(real_listdir(path), lambda x: x)
 
             class _Scan:
+                """os.scandir replacement: a real iterator (os.walk calls next() on it)."""
+
                 def __init__(self, path):
                     self._it = real_scandir(path)
-                    self._items = None
+                    self._perm = None
 
                 def __enter__(self):
                     return self
@@ -133,7 +135,12 @@ class _Env:
                     self._it.close()
 
                 def __iter__(self):
-                    return iter(permute(list(self._it), lambda e: e.name))
+                    return self
+
+                def __next__(self):
+                    if self._perm is None:
+                        self._perm = iter(permute(list(self._it), lambda e: e.name))
+                    return next(self._perm)
 
             os.listdir = listdir
             os.scandir = lambda path=".": _Scan(path)
